@@ -56,9 +56,27 @@ def run(prop, tier, seed, extra_assumptions=()):
     ctx = C.Ctx()
     covs, failed = [], {}
     import concurrent.futures as cf
-    with cf.ThreadPoolExecutor(max_workers=8) as ex:
-        results = list(ex.map(lambda uf: D.run_det_unit(C.Ctx(), uf[0], only=set(uf[1]) if uf[1] else None), plan["units"]))
-    for cov, f, undec in results:
+
+    def natives():
+        nat = None
+        for prof in plan.get("native_profiles", ["release"]):
+            binary, _ = D.build_native(prof)
+            n1 = D.run_native(binary, plan["native"], tier, seed)
+            n1["profile"] = prof
+            if nat is None:
+                nat = n1
+            else:
+                nat["violations"] = nat.get("violations", []) + [dict(v, key=v["key"] + "@" + prof) for v in n1.get("violations", [])
+                                                                 if v["key"] not in [x["key"] for x in nat.get("violations", [])]]
+                nat["evaluations"] = nat.get("evaluations", 0) + n1.get("evaluations", 0)
+                nat["profiles"] = nat.get("profiles", [nat.get("profile")]) + [prof]
+        return nat
+
+    pool = cf.ThreadPoolExecutor(max_workers=10)
+    nat_future = pool.submit(natives) if plan.get("native") else None
+    unit_futures = [pool.submit(D.run_det_unit, C.Ctx(), u, set(f) if f else None) for (u, f) in plan["units"]]
+    for fut in unit_futures:
+        cov, f, undec = fut.result()
         covs.append(cov)
         failed.update(f)
         for u in undec:
@@ -81,21 +99,12 @@ def run(prop, tier, seed, extra_assumptions=()):
         except (C.LostAnchor, C.Unsupported) as e:
             vd.add_undecided("unit ast could not be assembled: %s" % e)
     nat = None
-    if plan.get("native"):
+    if nat_future is not None:
         try:
-            for prof in plan.get("native_profiles", ["release"]):
-                binary, _ = D.build_native(prof)
-                n1 = D.run_native(binary, plan["native"], tier, seed)
-                n1["profile"] = prof
-                if nat is None:
-                    nat = n1
-                else:
-                    nat["violations"] = nat.get("violations", []) + [dict(v, key=v["key"] + "@" + prof) for v in n1.get("violations", [])
-                                                                     if v["key"] not in [x["key"] for x in nat.get("violations", [])]]
-                    nat["evaluations"] = nat.get("evaluations", 0) + n1.get("evaluations", 0)
-                    nat["profiles"] = nat.get("profiles", [nat.get("profile")]) + [prof]
+            nat = nat_future.result()
         except D.BuildError as e:
             vd.add_undecided(str(e)[:600])
+    pool.shutdown()
     if nat and any(v["key"] == "harness:not-implemented" for v in nat.get("violations", [])):
         nat = None   # bounded part not delivered yet: proofs only
     D.combine(vd, failed, nat, key_to_functions=key_to_functions)
